@@ -23,9 +23,8 @@ def main(argv=None) -> int:
     a = ap.parse_args(argv)
     seed = int(os.environ.get("VERIF_SEED", "0") or 0)
     prop = a.prop.upper()
+    core.bind_repo()  # before any check module (they import reactivex through vf.vt)
     mod = importlib.import_module(f"vf.checks.{prop.lower()}")
-    if not getattr(mod, "NO_BIND", False):
-        core.bind_repo()
     if a.replay:
         rec = json.load(open(a.replay))
         vs = mod.replay(rec["case"])
